@@ -299,10 +299,16 @@ def rewrite_r4(toks):
     """R4: byte-string literal b"..." -> &[0x.., ..] array literal with the same bytes."""
     fired = False
     out = []
-    for t in toks:
+    for idx, t in enumerate(toks):
         if t.kind == "str" and t.text.startswith('b"'):
             bs = _bytestr_bytes(t.text)
-            out.append(rl.Tok("str4", "&[" + ", ".join("0x%02xu8" % b for b in bs) + "]", t.start, t.end))
+            lit = "&[" + ", ".join("0x%02xu8" % b for b in bs) + "]"
+            k = idx + 1
+            while k < len(toks) and toks[k].kind == "ws":
+                k += 1
+            if k < len(toks) and toks[k].text == ".":
+                lit = "(" + lit + ")"     # method call on the literal: keep `&` bound to the array
+            out.append(rl.Tok("str4", lit, t.start, t.end))
             fired = True
         else:
             out.append(t)
